@@ -320,6 +320,16 @@ EXTRA6 = {
 for _pid, _t in EXTRA6.items():
     if _pid in CLAIMS and _t != "-":
         EXTRA[_pid] = (EXTRA[_pid][0] + "; sixth round: " + _t, EXTRA[_pid][1])
+EXTRA7 = {
+    "C07": "AFF-TIME-ALL decided on each path of a step() that branches on its arguments",
+    "C08": "DRV-STOP, the solver's own monitors merged with the caller's (DRV-FORWARD)",
+    "C11": "out= into a slice stores through the view, where= masks from element-wise comparisons",
+    "C15": "non-periodic closure of the 2D face differences == the 1D closure (ROW-1D-AGREE), interior rows of the layout",
+    "C03": "GRAD-CONST by induction over the stores of the difference arrays",
+}
+for _pid in CLAIMS:
+    _t = EXTRA7.get(_pid)
+    EXTRA[_pid] = (EXTRA[_pid][0] + "; seventh round: " + ((_t + ", ") if _t else "") + "LATE-BINDING (objects kept from a loop that read the loop variable when called)", EXTRA[_pid][1])
 EXTRA["C17"] = (EXTRA["C17"][0], EXTRA["C17"][1] + ", forward rounding-error abstract domain")
 EXTRA["C12"] = (EXTRA["C12"][0], EXTRA["C12"][1] + ", forward rounding-error abstract domain")
 for _pid in ("C07", "C06", "C08"):
